@@ -1,6 +1,7 @@
 package main
 
-// EM trajectories (scalar / vector mixtures, HMMs, mixture-inside-HMM), pool size 1.
+// EM trajectories (scalar / vector mixtures, HMMs, mixture-inside-HMM); sequential pool unless
+// the case carries a PoolSpec (pool.go).
 //
 // Which hook call carries which model (from emAlgorithm / baumWelchAlgorithm and the
 // estimators' Swap/Step):  per iteration k = 0,1,..  the driver does
@@ -22,6 +23,7 @@ import (
 	"fmt"
 	"math"
 	"os"
+	"strings"
 
 	ad "github.com/pbenner/autodiff"
 	st "github.com/pbenner/autodiff/statistics"
@@ -81,6 +83,12 @@ func (e Emis) logd(x []float64) float64 {
 			s += f.logd(x[i : i+1])
 		}
 		return s
+	case "iid": // every entry of x (any length) from the same scalar density
+		s := 0.0
+		for i := range x {
+			s += e.Sub[0].logd(x[i : i+1])
+		}
+		return s
 	case "vectorid": // x = flattened matrix, one row per sub-density
 		s, d := 0.0, len(x)/len(e.Sub)
 		for i, f := range e.Sub {
@@ -120,6 +128,11 @@ type EMCase struct {
 	// option lattice (emopts.go): OptimizeEmissions=false / OptimizeTransitions=false (HMMs) resp. OptimizeWeights=false (mixtures)
 	FreezeEmissions bool `json:"optimize_emissions_false,omitempty"`
 	FreezeSecond    bool `json:"optimize_transitions_or_weights_false,omitempty"`
+	// thread pool of 2..3 threads with a job -> thread assignment forced by the harness (pool.go)
+	Pool *PoolSpec `json:"pool,omitempty"`
+
+	s     *sched    // scheduler of the running case
+	stats poolStats // what the scheduler measured
 }
 
 func (cs *EMCase) maxSteps() int {
@@ -299,6 +312,8 @@ func snapVector(d st.VectorPdf) Emis {
 			e.Sub = append(e.Sub, snapScalar(c))
 		}
 		return e
+	case *vd.ScalarIid:
+		return Emis{Family: "iid", Sub: []Emis{snapScalar(x.Distribution)}}
 	case *vd.NormalDistribution:
 		return Emis{Family: "vnormal", P: []float64{x.Mu.At(0).GetFloat64(), x.Mu.At(1).GetFloat64(), x.Sigma.At(0, 0).GetFloat64(), x.Sigma.At(0, 1).GetFloat64(), x.Sigma.At(1, 1).GetFloat64()}}
 	case *vd.Mixture:
@@ -368,6 +383,12 @@ func mkVectorEst(e Emis, smin float64) (st.VectorEstimator, error) {
 			subs[i] = x
 		}
 		return ve.NewScalarId(subs...)
+	case "iid":
+		x, err := mkScalarEst(e.Sub[0], smin)
+		if err != nil {
+			return nil, err
+		}
+		return ve.NewScalarIid(x, -1)
 	case "vnormal":
 		return ve.NewNormalEstimator([]float64{e.P[0], e.P[1]}, []float64{e.P[2], e.P[3], e.P[3], e.P[4]}, smin)
 	}
@@ -394,6 +415,9 @@ func runTrajectory(cs *EMCase) (tr []step, err error) {
 	err = guard(func() error {
 		switch cs.Kind {
 		case "smix":
+			if cs.Pool != nil && cs.Pool.Assign != nil {
+				return runAssignedScalarMixture(cs, &tr)
+			}
 			subs := make([]st.ScalarEstimator, len(cs.Mix.Sub))
 			for i, s := range cs.Mix.Sub {
 				x, err := mkScalarEst(s, cs.SigmaMin)
@@ -415,7 +439,7 @@ func runTrajectory(cs *EMCase) (tr []step, err error) {
 			for k, v := range cs.Data[0] {
 				x.At(k).SetFloat64(v[0])
 			}
-			return est.EstimateOnData(x, nil, pool1)
+			return cs.runOn(func(p threadpool.ThreadPool) error { return est.EstimateOnData(x, nil, p) })
 		case "vmix":
 			subs := make([]st.VectorEstimator, len(cs.Mix.Sub))
 			for i, s := range cs.Mix.Sub {
@@ -438,7 +462,7 @@ func runTrajectory(cs *EMCase) (tr []step, err error) {
 			for k, v := range cs.Data[0] {
 				xs[k] = ad.NewDenseFloat64Vector(append([]float64{}, v...))
 			}
-			return est.EstimateOnData(xs, nil, pool1)
+			return cs.runOn(func(p threadpool.ThreadPool) error { return est.EstimateOnData(xs, nil, p) })
 		case "dmix":
 			return runDiscreteMixture(cs, &tr)
 		case "mhmm":
@@ -446,7 +470,7 @@ func runTrajectory(cs *EMCase) (tr []step, err error) {
 		case "mmix":
 			return runMatrixMixture(cs, &tr)
 		case "hmm":
-			if cs.DataSet == "summarized" {
+			if cs.DataSet == "summarized" || (cs.Pool != nil && cs.Pool.Assign != nil) {
 				return runSummarizedHmm(cs, &tr)
 			}
 			h := cs.Hmm
@@ -486,7 +510,7 @@ func runTrajectory(cs *EMCase) (tr []step, err error) {
 			if cs.Threads > 1 {
 				return est.EstimateOnData(xs, nil, threadpool.New(cs.Threads, 10))
 			}
-			return est.EstimateOnData(xs, nil, pool1)
+			return cs.runOn(func(p threadpool.ThreadPool) error { return est.EstimateOnData(xs, nil, p) })
 		}
 		return fmt.Errorf("harness: unknown kind %s", cs.Kind)
 	})
@@ -510,10 +534,24 @@ func runEMCase(c *vf.Ctx, cs *EMCase, idx int64) {
 		return fmt.Sprintf("em[%s]|sigmaMin=%v|%s|%s", cs.Label, cs.SigmaMin, q, wh)
 	}
 	viol := func(q, wh, msg string) {
-		c.Violate(key(q, wh), fmt.Sprintf("EM %s: %s [data=%v]", cs.Label, msg, cs.Data), rk, AnyCase{EM: cs})
+		pool := ""
+		if cs.Pool != nil {
+			pool = fmt.Sprintf(" pool=%+v", *cs.Pool)
+		}
+		c.Violate(key(q, wh), fmt.Sprintf("EM %s: %s [data=%v%s]", cs.Label, msg, cs.Data, pool), rk, AnyCase{EM: cs})
 	}
 	c.Eval(1)
 	tr, err := runTrajectory(cs)
+	if cs.Pool != nil {
+		c.Count("em_pool_runs", 1)
+		if cs.Pool.Assign != nil {
+			c.Count("em_pool_assigned_e_steps", cs.stats.eSteps)
+			c.Count("em_pool_assigned_e_steps_thread0_without_job", cs.stats.thread0Idle)
+			c.Count("em_pool_assigned_e_steps_split_over_threads", cs.stats.split)
+		} else if cs.Pool.Caller != 0 {
+			c.Count("em_pool_runs_thread0_never_used", 1)
+		}
+	}
 	if (cs.Kind == "dmix" && cs.Route == routeSummarised) || (cs.Kind == "hmm" && cs.DataSet == "summarized") {
 		// differential: the run on the summarised data set against the standard estimator on the same (expanded) data
 		diffAgainstStandard(c, cs, tr, err, viol)
@@ -529,6 +567,11 @@ func runEMCase(c *vf.Ctx, cs *EMCase, idx int64) {
 		default:
 			c.Outcome("em:" + cs.Label + ":loud-failure")
 		}
+		return
+	}
+	if err != nil && strings.HasPrefix(err.Error(), jobErrorLost) {
+		c.Outcome("em:" + cs.Label + ":loud-failure-of-a-job-under-a-forced-assignment")
+		c.Count("em_pool_runs_not_judged_job_error", 1)
 		return
 	}
 	if err != nil {
@@ -592,6 +635,18 @@ func runEMCase(c *vf.Ctx, cs *EMCase, idx int64) {
 		if !(math.Abs(L-want) <= 1e-9*math.Max(1, math.Abs(want))) {
 			viol("reported-likelihood", "differs-from-model-likelihood", fmt.Sprintf("iteration %d reports %.15g; the model its E-step used has log-likelihood %.15g: %s", i, L, want, describe(cs, tr[i-1])))
 			return
+		}
+		if !cs.isHmm() && !cs.FreezeSecond {
+			// exact M-step of the weights: the mean responsibilities under the model of the E-step
+			if ref := mstepWeights(tr[i-1].mix, cs.Data); ref != nil {
+				for j := range ref {
+					if j >= len(tr[i].mix.W) || !(math.Abs(tr[i].mix.W[j]-ref[j]) <= 1e-9) {
+						viol("m-step", "weights-are-not-the-mean-responsibilities", fmt.Sprintf("iteration %d: weights %v, mean responsibilities under the previous model %v; models %s -> %s", i, tr[i].mix.W, ref, describe(cs, tr[i-1]), describe(cs, tr[i])))
+						return
+					}
+				}
+				c.Count("em_weight_m_steps_checked", 1)
+			}
 		}
 		if i >= 2 {
 			if !(L >= tr[i-1].L-1e-9*math.Max(1e-3, math.Abs(tr[i-1].L))) {
@@ -700,8 +755,12 @@ func compTuples(k int, opts []Emis) [][]Emis {
 
 func runEM(c *vf.Ctx, thorough bool) {
 	var idx int64
+	only := os.Getenv("C16_ONLY")
 	each := func(cs EMCase) {
 		idx++
+		if only != "" && !strings.Contains(cs.Label, only) {
+			return
+		}
 		if c.Mine(idx) {
 			c.Guard("em:"+cs.Label, idx, AnyCase{EM: &cs})
 			runEMCase(c, &cs, idx)
@@ -945,4 +1004,7 @@ func runEM(c *vf.Ctx, thorough bool) {
 	enumSummarised(thorough, each, poissonOpts, catOpts, rows, seqData, pairData)
 	// ---- matrixEstimator instantiations and the option lattice (emopts.go)
 	enumMatrixAndOptions(thorough, each, normalOpts, poissonOpts, catOpts, prodOpts, mixedOpts, rows, seqData, pairData)
+	// ---- ScalarIid components on observations of different lengths; pools of 2..3 threads (pool.go)
+	enumRagged(thorough, each, normalOpts, poissonOpts)
+	enumPools(thorough, each, normalOpts, poissonOpts, catOpts, prodOpts, mixedOpts, rows, seqData, pairData)
 }
